@@ -1,2 +1,527 @@
--- line-protocol model driver for C17 (stub)
-def main : IO Unit := IO.println "stub C17"
+/- Line-protocol model driver for C17 (string / buffer / sequence library).
+
+   input line :  <fname> <arg> <arg> …          output line:  ok <value> | <arg0'> | <arg1'> …   (arguments re-read after the call)
+                                                              err | <arg0'> | …      (the call raises)
+                                                              skip                   (outside the modelled fragment)
+   value tokens:  n t f  i<int>  s<hex> b<hex> y<hex> k<hex> (string buffer symbol keyword)
+                  ( v … )  tuple     [ v … ]  array     { k v … }  table     #{ k v … }  struct
+                  r<k>  the same object as argument k       F<name>  a named function (see `fn1`, `pred`, `fn2`, `cmp`)
+-/
+import Driver.Util
+import JanetModel.Lib.Spec
+import JanetModel.Lib.Kmp
+import JanetModel.Lib.Sort
+open Driver JanetModel.Lib
+
+inductive V where
+  | nil | tt | ff
+  | int (i : Int)
+  | str (k : Nat) (b : List Nat)     -- k: 0 string, 1 buffer, 2 symbol, 3 keyword
+  | seq (k : Nat) (l : List V)       -- k: 0 tuple, 1 array
+  | tbl (k : Nat) (l : List (V × V)) -- k: 0 struct, 1 table
+  | fn (name : String)
+  | ref (k : Nat)
+  | other (tok : String)
+  deriving Inhabited
+
+partial def V.beq : V → V → Bool
+  | .nil, .nil => true
+  | .tt, .tt => true
+  | .ff, .ff => true
+  | .int a, .int b => a == b
+  | .str k a, .str k' b => k == k' && a == b
+  | .seq k a, .seq k' b => k == k' && a.length == b.length && (a.zip b).all (fun p => V.beq p.1 p.2)
+  | .fn a, .fn b => a == b
+  | _, _ => false
+instance : BEq V := ⟨V.beq⟩
+
+partial def V.show : V → String
+  | .nil => "n" | .tt => "t" | .ff => "f"
+  | .int i => s!"i{i}"
+  | .str k b => (match k with | 0 => "s" | 1 => "b" | 2 => "y" | _ => "k") ++ hexOfBytes b
+  | .seq k l => (if k == 0 then "(" else "[") ++ String.join (l.map (fun v => " " ++ v.show)) ++ (if k == 0 then " )" else " ]")
+  | .tbl k l =>
+    let ents := l.map (fun kv => (kv.1.show, kv.2.show))
+    let sorted := ents.toArray.qsort (fun a b => a.1 < b.1)
+    (if k == 0 then "#{" else "{") ++ String.join (sorted.toList.map (fun kv => " " ++ kv.1 ++ " " ++ kv.2)) ++ " }"
+  | .fn n => "F" ++ n
+  | .ref k => s!"r{k}"
+  | .other t => t
+
+/-- parse one value from the token list -/
+partial def parseV : List String → Option (V × List String)
+  | [] => none
+  | t :: rest =>
+    if t == "n" then some (.nil, rest) else if t == "t" then some (.tt, rest) else if t == "f" then some (.ff, rest)
+    else if t == "(" then parseSeq 0 rest [] else if t == "[" then parseSeq 1 rest []
+    else if t == "{" then parseTbl 1 rest [] else if t == "#{" then parseTbl 0 rest []
+    else
+      let c := t.front
+      let body := (t.drop 1).toString
+      if c == 'i' then (match body.toInt? with | some i => some (.int i, rest) | none => some (.other t, rest))
+      else if c == 's' then (bytesOfHex body).map (fun b => (V.str 0 b, rest))
+      else if c == 'b' then (bytesOfHex body).map (fun b => (V.str 1 b, rest))
+      else if c == 'y' then (bytesOfHex body).map (fun b => (V.str 2 b, rest))
+      else if c == 'k' then (bytesOfHex body).map (fun b => (V.str 3 b, rest))
+      else if c == 'r' then (match body.toNat? with | some k => some (.ref k, rest) | none => none)
+      else if c == 'F' then some (.fn body, rest)
+      else some (.other t, rest)
+where
+  parseSeq (k : Nat) : List String → List V → Option (V × List String)
+    | [], _ => none
+    | t :: rest, acc =>
+      if t == ")" || t == "]" then some (.seq k acc.reverse, rest)
+      else match parseV (t :: rest) with
+        | some (v, rest') => parseSeq k rest' (v :: acc)
+        | none => none
+  parseTbl (k : Nat) : List String → List (V × V) → Option (V × List String)
+    | [], _ => none
+    | t :: rest, acc =>
+      if t == "}" then some (.tbl k acc.reverse, rest)
+      else match parseV (t :: rest) with
+        | some (kk, rest') =>
+          match parseV rest' with
+          | some (vv, rest'') => parseTbl k rest'' ((kk, vv) :: acc)
+          | none => none
+        | none => none
+
+partial def parseArgs (toks : List String) (acc : List V) : Option (List V) :=
+  match toks with
+  | [] => some acc.reverse
+  | _ => match parseV toks with
+    | some (v, rest) => parseArgs rest (v :: acc)
+    | none => none
+
+/-! outcome of a call -/
+inductive Out where
+  | ok (v : V) (args : List V)
+  | err (args : List V)
+  | skip
+  | sortErr
+  | sortFuel
+
+def bytesOf : V → Option (List Nat) | .str _ b => some b | _ => none
+def indexedOf : V → Option (List V) | .seq _ l => some l | _ => none
+def intOf : V → Option Int | .int i => getInt32 i | _ => none
+def isNum : V → Bool | .int _ => true | _ => false
+def unsupported : V → Bool | .other _ => true | _ => false
+/-- optional integer argument that may be nil -/
+def optInt : V → Option (Option Int) | .nil => some none | .int i => (getInt32 i).map some | _ => none
+def ofBool (b : Bool) : V := if b then .tt else .ff
+def truthy : V → Bool | .nil => false | .ff => false | _ => true
+
+def fn1 (name : String) : Option (Int → Int) :=
+  match name with
+  | "inc" => some (· + 1) | "dbl" => some (· * 2) | "neg" => some (fun x => -x) | "sq" => some (fun x => x * x)
+  | "id" => some id | "mod3" => some (fun x => x % 3) | _ => none
+def pred (name : String) : Option (Int → Bool) :=
+  match name with
+  | "even" => some (fun x => x % 2 == 0) | "odd" => some (fun x => x % 2 == 1) | "pos" => some (· > 0)
+  | "neg?" => some (· < 0) | "lt3" => some (· < 3) | "true" => some (fun _ => true) | "false" => some (fun _ => false)
+  | _ => none
+def fn2 (name : String) : Option (Int → Int → Int) :=
+  match name with
+  | "add" => some (· + ·) | "mul" => some (· * ·) | "sub" => some (· - ·) | "max2" => some max | "min2" => some min
+  | "snd" => some (fun _ y => y) | _ => none
+/-- comparators; the Bool says whether it is a strict weak order (exact correspondence expected) -/
+def cmp (name : String) : Option (Int → Int → Bool) :=
+  match name with
+  | "lt" => some (· < ·) | "gt" => some (· > ·) | "le" => some (· ≤ ·) | "ge" => some (· ≥ ·)
+  | "mod4lt" => some (fun a b => a % 4 < b % 4) | "absgt" => some (fun a b => a.natAbs > b.natAbs)
+  | "div3lt" => some (fun a b => a / 3 < b / 3)
+  | "true" => some (fun _ _ => true) | "false" => some (fun _ _ => false)
+  | "ne" => some (· ≠ ·)
+  | "rnd" => some (fun a b => (31 * a + 17 * b + a * b) % 3 == 0)
+  | _ => none
+
+def ints (l : List V) : Option (List Int) := l.mapM (fun v => match v with | .int i => some i | _ => none)
+
+def pushArgs (args : List V) (selfIdx : Nat) : Option (List PushArg) :=
+  args.mapM (fun v => match v with
+    | .int i => some (PushArg.byte i)
+    | .str _ b => some (PushArg.bytes b)
+    | .ref k => if k == selfIdx then some PushArg.self else none
+    | _ => none)
+
+/-- does `v` (an argument after position 0) denote argument 0 itself? -/
+def isSelf : V → Bool | .ref 0 => true | _ => false
+
+def setArg0 (args : List V) (v : V) : List V :=
+  match args with | [] => [] | _ :: rest => v :: rest
+
+/-- resolve `r0` to the (new) value of argument 0 for printing -/
+def resolveRefs (args : List V) : List V :=
+  args.map (fun v => match v with | .ref k => args.getD k .nil | v => v)
+
+def sliceFn (kind : String) (args : List V) : Out :=
+  -- kind: which container is returned
+  match args with
+  | x :: rest =>
+    if rest.length > 2 then .err args else
+    let lenOk : Option (Sum (List Nat) (List V)) :=
+      match kind, x with
+      | "string", .str _ b | "buffer", .str _ b | "symbol", .str _ b | "keyword", .str _ b => some (.inl b)
+      | "array", .seq _ l | "tuple", .seq _ l => some (.inr l)
+      | "slice", .str _ b => some (.inl b)
+      | "slice", .seq _ l => some (.inr l)
+      | _, _ => none
+    match lenOk with
+    | none => .err args
+    | some c =>
+      let s := rest.getD 0 .nil
+      let e := rest.getD 1 .nil
+      match optInt s, optInt e with
+      | some s, some e =>
+        match c with
+        | .inl b => (match slice b s e with
+            | none => .err args
+            | some r => .ok (.str (match kind with | "buffer" => 1 | "symbol" => 2 | "keyword" => 3 | _ => 0) r) args)
+        | .inr l => (match slice l s e with
+            | none => .err args
+            | some r => .ok (.seq (if kind == "array" then 1 else 0) r) args)
+      | _, _ => .err args
+  | _ => .err args
+
+def natStart (v : Option V) : Option Nat :=
+  match v with
+  | none => some 0
+  | some x => match intOf x with | some i => if i < 0 then none else some i.toNat | none => none
+
+def call (f : String) (args : List V) : Out :=
+  if args.any unsupported then .skip else
+  match f, args with
+  -- ---------------------------------------------------------------- search family
+  | "string/find", pat :: text :: rest =>
+    if rest.length > 1 then .err args else
+    (match bytesOf pat, bytesOf text, natStart rest.head? with
+     | some p, some t, some st =>
+       (match find p t st with
+        | none => .err args
+        | some none => .ok .nil args
+        | some (some r) => if Kmp.find p t st == some r then .ok (.int r) args else .ok (.other "KMP-MISMATCH") args)
+     | _, _, _ => .err args)
+  | "string/find-all", pat :: text :: rest =>
+    if rest.length > 1 then .err args else
+    (match bytesOf pat, bytesOf text, natStart rest.head? with
+     | some p, some t, some st =>
+       if p == [] then .err args else
+       let r := findAll p t st
+       if Kmp.findAll p t st == r then .ok (.seq 1 (r.map (fun (i : Nat) => V.int i))) args else .ok (.other "KMP-MISMATCH") args
+     | _, _, _ => .err args)
+  | "string/replace", pat :: subst :: text :: rest =>
+    if (bytesOf subst).isNone then .skip else
+    if rest.length > 1 then .err args else
+    (match bytesOf pat, bytesOf subst, bytesOf text, natStart rest.head? with
+     | some p, some s, some t, some st =>
+       (match replace p s t st with | none => .err args | some r => .ok (.str 0 r) args)
+     | _, _, _, _ => .err args)
+  | "string/replace-all", pat :: subst :: text :: rest =>
+    if (bytesOf subst).isNone then .skip else
+    if rest.length > 1 then .err args else
+    (match bytesOf pat, bytesOf subst, bytesOf text, natStart rest.head? with
+     | some p, some s, some t, some st =>
+       (match replaceAll p s t st with
+        | none => .err args
+        | some r => if Kmp.replaceAll p s t st == r then .ok (.str 0 r) args else .ok (.other "KMP-MISMATCH") args)
+     | _, _, _, _ => .err args)
+  | "string/split", pat :: text :: rest =>
+    if rest.length > 2 then .err args else
+    (match bytesOf pat, bytesOf text, natStart rest.head?, (match rest with | [_, l] => intOf l | _ => some (-1)) with
+     | some p, some t, some st, some lim =>
+       if lim == int32Min then .skip else
+       (match split p t st lim with
+        | none => .err args
+        | some r => if Kmp.split p t st lim == r then .ok (.seq 1 (r.map (V.str 0))) args else .ok (.other "KMP-MISMATCH") args)
+     | _, _, _, _ => .err args)
+  | "string/join", parts :: rest =>
+    if rest.length > 1 then .err args else
+    (match indexedOf parts, (match rest with | [s] => bytesOf s | _ => some []) with
+     | some ps, some sep => (match ps.mapM bytesOf with | some bs => .ok (.str 0 (join bs sep)) args | none => .err args)
+     | _, _ => .err args)
+  -- ---------------------------------------------------------------- slices
+  | "string/slice", _ => sliceFn "string" args
+  | "symbol/slice", _ => sliceFn "symbol" args
+  | "keyword/slice", _ => sliceFn "keyword" args
+  | "buffer/slice", _ => sliceFn "buffer" args
+  | "array/slice", _ => sliceFn "array" args
+  | "tuple/slice", _ => sliceFn "tuple" args
+  | "slice", _ => sliceFn "slice" args
+  -- ---------------------------------------------------------------- trim & small byte functions
+  | "string/trim", s :: rest | "string/triml", s :: rest | "string/trimr", s :: rest =>
+    if rest.length > 1 then .err args else
+    (match bytesOf s, (match rest with | [x] => bytesOf x | _ => some defaultTrimSet) with
+     | some b, some set =>
+       .ok (.str 0 (if f == "string/trim" then trim b set else if f == "string/triml" then triml b set else trimr b set)) args
+     | _, _ => .err args)
+  | "string/repeat", [s, n] =>
+    (match bytesOf s, intOf n with
+     | some b, some k => (match repeatBytes b k with | some r => .ok (.str 0 r) args | none => .err args)
+     | _, _ => .err args)
+  | "string/reverse", [s] => (match bytesOf s with | some b => .ok (.str 0 b.reverse) args | none => .err args)
+  | "string/ascii-upper", [s] => (match bytesOf s with | some b => .ok (.str 0 (asciiUpper b)) args | none => .err args)
+  | "string/ascii-lower", [s] => (match bytesOf s with | some b => .ok (.str 0 (asciiLower b)) args | none => .err args)
+  | "string/has-prefix?", [p, s] =>
+    (match bytesOf p, bytesOf s with | some a, some b => .ok (ofBool (hasPrefix a b)) args | _, _ => .err args)
+  | "string/has-suffix?", [p, s] =>
+    (match bytesOf p, bytesOf s with | some a, some b => .ok (ofBool (hasSuffix a b)) args | _, _ => .err args)
+  | "string/check-set", [p, s] =>
+    (match bytesOf p, bytesOf s with | some a, some b => .ok (ofBool (checkSet a b)) args | _, _ => .err args)
+  | "string/bytes", [s] => (match bytesOf s with | some b => .ok (.seq 0 (b.map (fun (x : Nat) => V.int x))) args | none => .err args)
+  | "string/from-bytes", xs =>
+    (match xs.mapM intOf with | some l => .ok (.str 0 (l.map toByte)) args | none => .err args)
+  | "buffer/from-bytes", xs =>
+    (match xs.mapM intOf with | some l => .ok (.str 1 (l.map toByte)) args | none => .err args)
+  -- ---------------------------------------------------------------- buffers
+  | "buffer/push", (.str 1 b) :: xs =>
+    (match pushArgs xs 0 with
+     | none =>
+       -- an ill-typed argument: the ones before it have been pushed
+       let good := xs.takeWhile (fun v => match v with | .int _ => true | .str _ _ => true | .ref 0 => true | _ => false)
+       (match pushArgs good 0 with
+        | some pa => let (_, b') := bufferPushSt b pa; .err (setArg0 args (.str 1 b'))
+        | none => .err args)
+     | some pa =>
+       let (okk, b') := bufferPushSt b pa
+       if okk then .ok (.str 1 b') (setArg0 args (.str 1 b')) else .err (setArg0 args (.str 1 b')))
+  | "buffer/push-string", (.str 1 b) :: xs =>
+    let good := xs.takeWhile (fun v => match v with | .str _ _ => true | .ref 0 => true | _ => false)
+    (match pushArgs good 0 with
+     | some pa =>
+       let (_, b') := bufferPushSt b pa
+       if good.length == xs.length then .ok (.str 1 b') (setArg0 args (.str 1 b')) else .err (setArg0 args (.str 1 b'))
+     | none => .err args)
+  | "buffer/push-byte", (.str 1 b) :: xs =>
+    let good := xs.takeWhile (fun v => (intOf v).isSome)
+    let b' := b ++ good.filterMap (fun v => (intOf v).map toByte)
+    if good.length == xs.length then .ok (.str 1 b') (setArg0 args (.str 1 b')) else .err (setArg0 args (.str 1 b'))
+  | "buffer/push-at", (.str 1 b) :: idx :: xs =>
+    (match intOf idx with
+     | none => .err args
+     | some i =>
+       if i < 0 ∨ i > (b.length : Int) then .err args else
+       let good := xs.takeWhile (fun v => match v with | .int k => (getInt32 k).isSome | .str _ _ => true | .ref 0 => true | _ => false)
+       (match pushArgs good 0 with
+        | some pa =>
+          let (_, p) := bufferPushSt (b.take i.toNat) pa
+          if good.length == xs.length then
+            let b' := p ++ b.drop p.length
+            .ok (.str 1 b') (setArg0 args (.str 1 b'))
+          else
+            -- error part-way: the count stays where the partial push left it (not restored)
+            .err (setArg0 args (.str 1 p))
+        | none => .err args))
+  | "buffer/blit", (.str 1 d) :: src :: rest =>
+    if rest.length > 3 then .err args else
+    let s? : Option (Option (List Nat)) := match src with | .ref 0 => some none | .str _ b => some (some b) | _ => none
+    (match s?, optInt (rest.getD 0 .nil), optInt (rest.getD 1 .nil), optInt (rest.getD 2 .nil) with
+     | some s, some ds, some ss, some se =>
+       (match bufferBlit d s ds ss (if rest.length ≥ 3 then some se else none) with
+        | some r => .ok (.str 1 r) (setArg0 args (.str 1 r))
+        | none => .err args)
+     | _, _, _, _ => .err args)
+  | "buffer/popn", [.str 1 b, n] =>
+    (match intOf n with
+     | some k => (match bufferPopn b k with | some r => .ok (.str 1 r) (setArg0 args (.str 1 r)) | none => .err args)
+     | none => .err args)
+  | "buffer/clear", [.str 1 _] => .ok (.str 1 []) (setArg0 args (.str 1 []))
+  | "buffer/fill", (.str 1 b) :: rest =>
+    if rest.length > 1 then .err args else
+    (match (match rest with | [x] => intOf x | _ => some 0) with
+     | some byte => let r := bufferFill b byte; .ok (.str 1 r) (setArg0 args (.str 1 r))
+     | none => .err args)
+  | "buffer/new-filled", n :: rest =>
+    if rest.length > 1 then .err args else
+    (match intOf n, (match rest with | [x] => intOf x | _ => some 0) with
+     | some c, some byte => .ok (.str 1 (newFilled c byte)) args
+     | _, _ => .err args)
+  | "buffer/push-word", (.str 1 b) :: xs =>
+    let good := xs.takeWhile (fun v => match v with | .int k => decide (0 ≤ k ∧ k < 4294967296) | _ => false)
+    let b' := b ++ (good.filterMap (fun v => match v with | .int k => some (leBytes 4 k.toNat) | _ => none)).flatten
+    if good.length == xs.length then .ok (.str 1 b') (setArg0 args (.str 1 b')) else .err (setArg0 args (.str 1 b'))
+  | "buffer/push-uint16", [.str 1 b, .str 3 order, .int x] | "buffer/push-uint32", [.str 1 b, .str 3 order, .int x] =>
+    let nb := if f == "buffer/push-uint16" then 2 else 4
+    let be? : Option Bool := if order == [108, 101] then some false else if order == [98, 101] then some true
+                             else if order == [110, 97, 116, 105, 118, 101] then some false else none
+    (match be? with
+     | none => .err args
+     | some be => (match pushUint b nb be x with
+        | some r => .ok (.str 1 r) (setArg0 args (.str 1 r))
+        | none => .err args))
+  | "buffer/bit", [.str 1 b, .int i] => (match bitGet b i with | some r => .ok (ofBool r) args | none => .err args)
+  | "buffer/bit-set", [.str 1 b, .int i] =>
+    (match bitSet b i with | some r => .ok (.str 1 r) (setArg0 args (.str 1 r)) | none => .err args)
+  | "buffer/bit-clear", [.str 1 b, .int i] =>
+    (match bitClear b i with | some r => .ok (.str 1 r) (setArg0 args (.str 1 r)) | none => .err args)
+  | "buffer/bit-toggle", [.str 1 b, .int i] =>
+    (match bitToggle b i with | some r => .ok (.str 1 r) (setArg0 args (.str 1 r)) | none => .err args)
+  -- ---------------------------------------------------------------- arrays / tuples
+  | "array/insert", (.seq 1 a) :: at_ :: xs =>
+    (match at_ with
+     | .int i =>
+       (match arrayInsert a i xs with
+        | some r => .ok (.seq 1 r) (setArg0 args (.seq 1 r))
+        | none => .err args)
+     | _ => .err args)
+  | "array/remove", (.seq 1 a) :: at_ :: rest =>
+    if rest.length > 1 then .err args else
+    (match at_, (match rest with | [x] => x | _ => V.int 1) with
+     | .int i, .int n =>
+       (match arrayRemove a i n with
+        | some r => .ok (.seq 1 r) (setArg0 args (.seq 1 r))
+        | none => .err args)
+     | _, _ => .err args)
+  | "array/concat", (.seq 1 a) :: xs =>
+    let parts := xs.map (fun v => match v with
+      | .ref 0 => ConcatArg.self
+      | .seq _ l => ConcatArg.seq l
+      | v => ConcatArg.item v)
+    let r := arrayConcat a parts
+    .ok (.seq 1 r) (setArg0 args (.seq 1 r))
+  | "array/join", (.seq 1 a) :: xs =>
+    let good := xs.takeWhile (fun v => match v with | .ref 0 => true | .seq _ _ => true | _ => false)
+    let parts := good.map (fun v => match v with | .ref 0 => ConcatArg.self | .seq _ l => ConcatArg.seq l | v => ConcatArg.item v)
+    let r := arrayConcat a parts
+    if good.length == xs.length then .ok (.seq 1 r) (setArg0 args (.seq 1 r)) else .err (setArg0 args (.seq 1 r))
+  | "tuple/join", xs =>
+    (match xs.mapM indexedOf with | some ls => .ok (.seq 0 ls.flatten) args | none => .err args)
+  | "array/fill", (.seq 1 a) :: rest =>
+    if rest.length > 1 then .err args else
+    let x := rest.getD 0 .nil
+    let r := arrayFill a x
+    .ok (.seq 1 r) (setArg0 args (.seq 1 r))
+  | "array/push", (.seq 1 a) :: xs => let r := a ++ xs; .ok (.seq 1 r) (setArg0 args (.seq 1 r))
+  | "array/pop", [.seq 1 a] =>
+    (match a.getLast? with
+     | some x => .ok x (setArg0 args (.seq 1 a.dropLast))
+     | none => .ok .nil args)
+  | "array/peek", [.seq 1 a] => .ok (a.getLast?.getD .nil) args
+  | "array/new-filled", n :: rest =>
+    if rest.length > 1 then .err args else
+    (match intOf n with
+     | some c => if c < 0 then .err args else .ok (.seq 1 (List.replicate c.toNat (rest.getD 0 .nil))) args
+     | none => .err args)
+  -- ---------------------------------------------------------------- boot.janet sequence functions
+  | "take", [.int n, x] =>
+    (match x with
+     | .seq _ l => .ok (.seq 0 (takeN n l)) args
+     | .str _ b => .ok (.str 0 (takeN n b)) args
+     | _ => .skip)
+  | "drop", [.int n, x] =>
+    (match x with
+     | .seq _ l => .ok (.seq 0 (dropN n l)) args
+     | .str _ b => .ok (.str 0 (dropN n b)) args
+     | _ => .skip)
+  | "take-while", [.fn p, .seq _ l] =>
+    (match pred p, ints l with
+     | some p, some xs => .ok (.seq 0 ((takeWhileL p xs).map V.int)) args
+     | _, _ => .skip)
+  | "drop-while", [.fn p, .seq _ l] =>
+    (match pred p, ints l with
+     | some p, some xs => .ok (.seq 0 ((dropWhileL p xs).map V.int)) args
+     | _, _ => .skip)
+  | "take-until", [.fn p, .seq _ l] =>
+    (match pred p, ints l with
+     | some p, some xs => .ok (.seq 0 ((takeWhileL (fun x => !p x) xs).map V.int)) args
+     | _, _ => .skip)
+  | "drop-until", [.fn p, .seq _ l] =>
+    (match pred p, ints l with
+     | some p, some xs => .ok (.seq 0 ((dropWhileL (fun x => !p x) xs).map V.int)) args
+     | _, _ => .skip)
+  | "filter", [.fn p, .seq _ l] =>
+    (match pred p, ints l with
+     | some p, some xs => .ok (.seq 1 ((xs.filter p).map V.int)) args
+     | _, _ => .skip)
+  | "count", [.fn p, .seq _ l] =>
+    (match pred p, ints l with
+     | some p, some xs => .ok (.int (xs.countP p)) args
+     | _, _ => .skip)
+  | "find-index", [.fn p, .seq _ l] =>
+    (match pred p, ints l with
+     | some p, some xs => .ok (match xs.findIdx? p with | some i => .int i | none => .nil) args
+     | _, _ => .skip)
+  | "map", [.fn g, .seq _ l] =>
+    (match fn1 g, ints l with
+     | some g, some xs => .ok (.seq 1 ((xs.map g).map V.int)) args
+     | _, _ => .skip)
+  | "map", [.fn g, .seq _ l, .seq _ l2] =>
+    (match fn2 g, ints l, ints l2 with
+     | some g, some xs, some ys => .ok (.seq 1 ((List.zipWith g xs ys).map V.int)) args
+     | _, _, _ => .skip)
+  | "reduce", [.fn g, .int init, .seq _ l] =>
+    (match fn2 g, ints l with
+     | some g, some xs => .ok (.int (reduce g init xs)) args
+     | _, _ => .skip)
+  | "partition", [.int n, x] =>
+    if n < 1 then .skip else
+    (match x with
+     | .seq _ l => .ok (.seq 1 ((partition n.toNat l).map (V.seq 0))) args
+     | .str _ b => .ok (.seq 1 ((partition n.toNat b).map (V.str 0))) args
+     | _ => .skip)
+  | "interleave", cols =>
+    (match cols.mapM indexedOf with
+     | some cs => .ok (.seq 1 (interleave cs)) args
+     | none => .skip)
+  | "interpose", [sep, .seq _ l] => .ok (.seq 1 (interpose sep l)) args
+  | "range", xs =>
+    (match ints xs with
+     | some [e] => .ok (.seq 1 ((rangeI 0 e 1).map V.int)) args
+     | some [s, e] => .ok (.seq 1 ((rangeI s e 1).map V.int)) args
+     | some [s, e, st] => .ok (.seq 1 ((rangeI s e st).map V.int)) args
+     | _ => .skip)
+  | "distinct", [.seq _ l] => .ok (.seq 1 (distinct l)) args
+  | "frequencies", [.seq _ l] => .ok (.tbl 1 ((frequencies l).map (fun kv => (kv.1, V.int kv.2)))) args
+  | "merge", colls =>
+    (match colls.mapM (fun v => match v with | .tbl _ l => some l | _ => none) with
+     | some cs => .ok (.tbl 1 (merge cs)) args
+     | none => .skip)
+  | "zipcoll", [.seq _ ks, .seq _ vs] => .ok (.tbl 1 (zipcoll ks vs)) args
+  | "min", xs => (match ints xs with | some l => .ok ((extreme (· < ·) l).elim V.nil V.int) args | none => .skip)
+  | "max", xs => (match ints xs with | some l => .ok ((extreme (· > ·) l).elim V.nil V.int) args | none => .skip)
+  | "min-of", [.seq _ xs] => (match ints xs with | some l => .ok ((extreme (· < ·) l).elim V.nil V.int) args | none => .skip)
+  | "max-of", [.seq _ xs] => (match ints xs with | some l => .ok ((extreme (· > ·) l).elim V.nil V.int) args | none => .skip)
+  | "sum", [.seq _ xs] => (match ints xs with | some l => .ok (.int (sumI l)) args | none => .skip)
+  | "product", [.seq _ xs] => (match ints xs with | some l => .ok (.int (productI l)) args | none => .skip)
+  | "reverse", [x] =>
+    (match x with
+     | .seq _ l => .ok (.seq 1 l.reverse) args
+     | .str _ b => .ok (.str 1 b.reverse) args
+     | _ => .skip)
+  | "reverse!", [x] =>
+    (match x with
+     | .seq 1 l => .ok (.seq 1 l.reverse) (setArg0 args (.seq 1 l.reverse))
+     | .str 1 b => .ok (.str 1 b.reverse) (setArg0 args (.str 1 b.reverse))
+     | _ => .skip)
+  | "flatten", [.seq _ l] =>
+    let rec flat : Nat → List V → List V
+      | 0, _ => []
+      | fuel + 1, l => l.flatMap (fun v => match v with | .seq _ l' => flat fuel l' | v => [v])
+    .ok (.seq 1 (flat 64 l)) args
+  | "sort", (.seq 1 l) :: rest | "sorted", (.seq k l) :: rest =>
+    (match ints l, (match rest with | [] => cmp "lt" | [.fn c] => cmp c | _ => none) with
+     | some xs, some before =>
+       (match Sort.sort (fun a b => decide (a ≤ b)) before xs.toArray with
+        | .ok r =>
+          let rv := V.seq 1 (r.toList.map V.int)
+          if f == "sort" then .ok rv (setArg0 args rv) else .ok rv args
+        | .err => .sortErr
+        | .fuel => .sortFuel)
+     | _, _ => .skip)
+  | _, _ => .skip
+
+def render (o : Out) : String :=
+  match o with
+  | .skip => "skip"
+  | .sortErr => "sorterr"
+  | .sortFuel => "sortfuel"
+  | .ok v args => "ok " ++ v.show ++ String.join ((resolveRefs args).map (fun a => " | " ++ a.show))
+  | .err args => "err" ++ String.join ((resolveRefs args).map (fun a => " | " ++ a.show))
+
+def step (_ : Unit) (toks : List String) : Unit × String :=
+  match toks with
+  | [] => ((), "bad-op")
+  | f :: rest =>
+    match parseArgs rest [] with
+    | none => ((), "bad-op")
+    | some args => ((), render (call f args))
+
+def main : IO Unit := runLoop () step
